@@ -120,6 +120,42 @@ def corrupt_big_bag(run):
     return None
 
 
+def corrupt_peek(run):
+    """one peek() answer replaced by the element that is popped one step later"""
+    for e in run:
+        if e.get("op") == "peekpop" and e.get("ok") and len(e["out"]) >= 4:
+            i = _distinct_pair(e["out"])
+            if i is None:
+                continue
+            pk = list(e["peeks"])
+            pk[i] = [e["out"][i + 1]]
+            e["peeks"] = pk
+            return [run[0], e]
+    return None
+
+
+def corrupt_compare(run):
+    """one three-way comparison answer changed (Equal reported as Greater / anything else as Equal)"""
+    for e in run:
+        if e.get("op") == "compare" and e.get("ok") and len(e["out"]) >= 9:
+            out = list(e["out"])
+            out[8] = 1 if out[8] == 0 else 0
+            e["out"] = out
+            return [run[0], e]
+    return None
+
+
+def corrupt_argmin(run):
+    """the LAST instead of the first minimum reported (index moved to a later equal element), or index + 1"""
+    for e in run:
+        if e.get("op") == "argmin" and e.get("r") and len(e["a"]) >= 9:
+            i, v = e["r"][0]
+            later = [j for j in range(i + 1, len(e["a"])) if e["a"][j] == v]
+            e["r"] = [[later[-1] if later else (i + 1) % len(e["a"]), v]]
+            return [run[0], e]
+    return None
+
+
 def _files(s):
     return sorted(glob.glob(os.path.join(s["_out"], "*.ndjson")))
 
@@ -168,6 +204,9 @@ def run(ctx):
         (corrupt_kv_values, "values of two pairs with different keys exchanged", lambda s_, e: e.get("op") == "sort_kv" and e.get("ok") and len(e.get("out", [])) >= 6),
         (corrupt_setop, "one element of a set-operation result dropped", lambda s_, e: s_.startswith("setops:multiset_union") and e.get("op") == "setop" and len(e.get("out", [])) >= 4),
         (corrupt_kinter, "an element added to a k-way intersection", lambda s_, e: s_.startswith("ksets:bitmask") and e.get("op") == "ksetop" and e.get("name") == "k_inter" and len(e.get("runs", [])) >= 2),
+        (corrupt_peek, "loser tree: one peek() answer differs from the element popped next", lambda s_, e: e.get("op") == "peekpop" and e.get("ok") and len(e.get("out", [])) >= 6),
+        (corrupt_compare, "one element-wise comparison answer changed", lambda s_, e: e.get("op") == "compare" and e.get("ok") and len(e.get("out", [])) >= 9),
+        (corrupt_argmin, "find_min: a later minimum / a wrong index reported", lambda s_, e: e.get("op") == "argmin" and e.get("r") and len(e.get("a", [])) >= 9),
         (corrupt_big_inv, "large regime: one adjacent inversion reported", lambda s_, e: s_.startswith("radix:u64") and e.get("op") == "sort_big" and e.get("ok")),
         (corrupt_big_bag, "large regime: output digest changed in one bit", lambda s_, e: s_.startswith("mwm:heap") and e.get("op") == "merge_big" and e.get("ok")),
     ]
